@@ -335,8 +335,8 @@ and insert_state (s : Sexp.t) : (insert * iobs list) * bool =
     | "replace" -> ICReplace
     | "into" -> ICInto (tref (List.hd l))
     | "columns" -> ICColumns (List.map hx l)
-    | "values" -> ICValues (List.map expr l)
-    | "valuespanic" -> ICValuesPanic (List.map expr l)
+    | "values" | "valuesit" -> ICValues (List.map expr l)
+    | "valuespanic" | "valuespanicit" -> ICValuesPanic (List.map expr l)
     | "valuesfrompanic" -> ICValuesFromPanic (List.map (fun r -> List.map expr (args r)) l)
     | "selectfrom" -> ICSelectFrom (select (List.hd l))
     | "ordefault" -> ICOrDefault
@@ -414,10 +414,20 @@ let run_stmt (b : backend) (s : Sexp.t) : string =
 (* fully parenthesised rendering: same renderer, tables that never drop parentheses *)
 let full_tables (b : backend) : etables =
   let t = tables_of false b in
-  { t with t_drop_paren = (fun _ _ -> false); t_lassoc = (fun _ -> false) }
+  (* operators and NOT are always parenthesised as operands; atoms (incl. sub-queries and tuples) never *)
+  { t with t_drop_paren = (fun sk _ -> not (int_of_n sk < 200 || int_of_n sk = 202)); t_lassoc = (fun _ -> false) }
 let run_expr_full (b : backend) (s : Sexp.t) : string =
   try
     let q = QSelect (build_select [SCSelExpr (SelExpr (expr s, None, None))]) in
+    let sc = rquery is_alpha_rust b (full_tables b) fuel q in
+    (match emit_inline ftext b sc with Ok inl -> hex_of_str inl | Panic -> "PANIC")
+  with Exit -> "PANIC"
+
+let run_stmt_full (b : backend) (s : Sexp.t) : string =
+  try
+    let q = (match head s with
+      | "insert" -> let ((i, _), panicked) = insert_state s in if panicked then raise Exit else QInsert i
+      | _ -> subquery s) in
     let sc = rquery is_alpha_rust b (full_tables b) fuel q in
     (match emit_inline ftext b sc with Ok inl -> hex_of_str inl | Panic -> "PANIC")
   with Exit -> "PANIC"
